@@ -16,7 +16,9 @@ WHERE = ["top", "method", "classmethod", "staticmethod", "property", "inner", "d
          "subclassmethod", "substaticmethod", "subproperty"]
 NAMES = ["a", "b", "cc", "data", "x1", "q", "long_parameter_name_number_one", "another_rather_long_parameter_name",
          "yet_another_very_long_parameter_name_to_force_wrapping", "value_with_a_name_that_is_forty_chars_long"]
-FNAMES = ["f", "g", "compute_something_rather_long_named_function", "h"]
+FNAMES = ["f", "g", "compute_something_rather_long_named_function", "h",
+          # long enough that `def name() -> ret` alone exceeds the 120 columns (the wrapped layout of an EMPTY parameter list)
+          "a_function_name_that_is_long_enough_that_its_definition_line_does_not_fit_in_one_hundred_and_twenty_columns_even_without_parameters"]
 HEADER = ("from typing import *\nfrom fxh import Base as Helper\nUserId = NewType('UserId', int)\n\n"
           "import functools\n\ndef wrapdeco(f):\n    @functools.wraps(f)\n    def wrapper(*a, **k):\n        return f(*a, **k)\n    return wrapper\n\n"
           "class myclassmethod(classmethod):\n    pass\n\nclass mystaticmethod(staticmethod):\n    pass\n\nclass myproperty(property):\n    pass\n\n")
